@@ -229,6 +229,12 @@ class Program:
                 rivals = [m2 for m2, msig in missing.items() if msig == sig]
                 if len(cands) == 1 and len(rivals) == 1 and cands[0] not in ren and n not in ren.values():
                     ren[cands[0]] = n
+                elif not cands and isinstance(sig, list) and len(missing) == 1:
+                    # renamed AND given extra parameters: the only vanished name of the scope against the only added
+                    # name whose parameters include all the old ones
+                    sup = [a for a, asig in added.items() if isinstance(asig, list) and set(sig) <= set(asig)]
+                    if len(sup) == 1 and sup[0] not in ren:
+                        ren[sup[0]] = n
         if not ren:
             return {}
         # Every occurrence of a NEW name is renamed back, so the new name must denote one symbol only: it is defined
@@ -486,9 +492,12 @@ class Program:
                             out.append(kw.arg)
                         elif kw.arg is None:
                             out.extend(p for p in new if p not in out)
+                    # a method called through an attribute receives its first parameter implicitly
+                    off = 1 if (isinstance(node.func, ast.Attribute) and pos and pos[0] in ("self", "cls")) else 0
                     for i in range(len(node.args)):
-                        if i < len(pos) and pos[i] in new and pos[i] not in out:
-                            out.append(pos[i])
+                        j = i + off
+                        if j < len(pos) and pos[j] in new and pos[j] not in out:
+                            out.append(pos[j])
         self._passed_cache[k] = out
         return out
 
